@@ -50,11 +50,19 @@ Definition lobs_eqb (a b : lobs) : bool :=
 Definition c13_check (x : c13_case * c13_obs) : bool := list_eqb lobs_eqb (c13_model (fst x)) (snd x).
 
 (** C13 also speaks about the driver: compositions run by the scheduler model (FV.Sched) are a second kind of case *)
-Inductive c13_case2 : Type := CLink (c : c13_case) | CSched (c : sched_case).
-Inductive c13_obs2 : Type := OLink (o : c13_obs) | OSched (o : sched_obs).
+(** A TREE of links: one output, a shared trunk of adapters WITHOUT per-request state (pass-through, DelayFixed,
+    DelayToPush) that branches to several consumers, each behind its own sub-chain.  Its model is: every consumer sees
+    exactly the link  sub-chain ++ trunk  driven by all publications and by ITS OWN pulls (the consumers do not
+    influence each other).  A tree case is given as the list of these per-consumer links. *)
+Definition c13_tree_check (cs : list c13_case) (os : list c13_obs) : bool :=
+  Nat.eqb (length cs) (length os) && forallb c13_check (combine cs os).
+
+Inductive c13_case2 : Type := CLink (c : c13_case) | CSched (c : sched_case) | CTree (cs : list c13_case).
+Inductive c13_obs2 : Type := OLink (o : c13_obs) | OSched (o : sched_obs) | OTree (os : list c13_obs).
 Definition c13_check2 (x : c13_case2 * c13_obs2) : bool :=
   match x with
   | (CLink c, OLink o) => c13_check (c, o)
   | (CSched c, OSched o) => sched_check (c, o)
+  | (CTree cs, OTree os) => c13_tree_check cs os
   | _ => false
   end.
